@@ -141,6 +141,10 @@ pub struct RefWorld {
   pub hit_subscription_cap: bool,
   /// nested subscriptions: (outer recorder, trigger, inner recorder, fired)
   pub nests: Vec<(u32, crate::s_run::Trig, u32, bool)>,
+  /// (recorder, trigger, hot source, event, fired): the recorder's callback pushes the event into the source
+  pub feeds: Vec<(u32, crate::s_run::Trig, usize, Ev, bool)>,
+  /// at every subscription of a source (src, instance): alive and lazy flags of every instance
+  pub sub_snaps: Vec<(usize, usize, Vec<Vec<bool>>, Vec<Vec<bool>>)>,
   pub nest_pipeline: Option<Node>,
   pub root_of_rec: Vec<(u32, usize)>,
 }
@@ -156,6 +160,8 @@ impl RefWorld {
       roots: vec![],
       hit_subscription_cap: false,
       nests: vec![],
+      feeds: vec![],
+      sub_snaps: vec![],
       nest_pipeline: None,
       root_of_rec: vec![],
     }
@@ -209,6 +215,9 @@ impl RefWorld {
         let id = self.new_node(Kind::Src(*i, inst), Some((parent, slot)), 0);
         self.nodes[parent].inputs[slot] = Some(id);
         self.srcs[*i].insts.push(RInst { node: id, alive: true, lazy: false, emitted: 0 });
+        let alive: Vec<Vec<bool>> = self.srcs.iter().map(|s| s.insts.iter().map(|x| x.alive).collect()).collect();
+        let lazy: Vec<Vec<bool>> = self.srcs.iter().map(|s| s.insts.iter().map(|x| x.lazy).collect()).collect();
+        self.sub_snaps.push((*i, inst, alive, lazy));
         self.play_source(*i, inst);
       }
       Node::Op(on) => {
@@ -470,6 +479,19 @@ impl RefWorld {
         for r2 in fire {
           self.subscribe_root(&p, r2);
         }
+      }
+    }
+    if rec % 100 == 0 && !self.feeds.is_empty() {
+      let items = self.all.iter().filter(|e| e.0 == rec && !e.1.is_terminal()).count();
+      let mut fire = vec![];
+      for f in self.feeds.iter_mut() {
+        if f.0 == rec && !f.4 && f.1.matches(&ev, items) {
+          f.4 = true;
+          fire.push((f.2, f.3.clone()));
+        }
+      }
+      for (src, e) in fire {
+        self.hot_emit(src, e);
       }
     }
   }
@@ -979,9 +1001,17 @@ impl RefWorld {
       }
       Op::SequenceEqual => {
         let verdict = |me: &mut RefWorld, b: bool| {
+          // decided (outer_done doubles as the flag): no item or completion that arrives
+          // while the verdict is being delivered changes it; like take's last item, the
+          // verdict goes out before the inputs are cancelled, so an error arriving during
+          // its delivery still ends the stream
+          me.nodes[id].outer_done = true;
           me.emit(id, N(D::B(b)));
           me.emit(id, C);
         };
+        if self.nodes[id].outer_done && !matches!(ev, E(_)) {
+          return;
+        }
         match ev {
           N(x) => {
             self.nodes[id].queues[slot].push_back(x);
